@@ -188,3 +188,14 @@ pub proof fn lemma_rf_exit_eof(p0: Seq<u8>, w0: Seq<u8>, limit: u32) // @ob C18 
 {
     assert(p0 + w0 =~= p0);
 }
+
+// every request read_frame returns is well-formed in the handler's sense
+pub proof fn lemma_rf_wf(s0: Seq<u8>, limit: u32, r: core::result::Result<Option<BinaryRequest>, io::Error>, s1: Seq<u8>) // @ob C10,C12 lemma.rf_wf
+    requires rf_post(s0, limit, r, s1), r is Ok, r->Ok_0 is Some,
+    ensures req_wf(req_view(r->Ok_0->Some_0)),
+{
+    match first_frame(s0, limit) {
+        FF::Frame(h, rest) => { lemma_decoded_req_wf(r->Ok_0->Some_0, h, rest); },
+        _ => { },
+    }
+}
